@@ -1,10 +1,47 @@
 (* C12 - Path algebra: normalised, root-confined, invertible, separator-agnostic.
    Only statements; proofs live in theories/Path. *)
 From Coq Require Import String List NArith Bool.
-From BFG Require Import Base.Chars Path.PathAlg Path.PathAlgProofs.
+From BFG Require Import Base.Chars Path.PathAlg Path.PathAlgProofs Path.PathAlgMk.
 Import ListNotations.
+
+(* Whatever string, root (plain or a base path) and flags the constructor accepts, the stored components
+   contain no empty, dot or dotdot component and no separator character. *)
+Theorem C12_normalised : forall s r dd dir p, mk s r dd dir = Some p -> normal (p_comps p).
+Proof. exact mk_normal. Qed.
+Print Assumptions C12_normalised.
+
+(* slash and backslash are interchangeable in every string the constructor / append receives *)
+Theorem C12_sep_agnostic : forall s r dd dir, mk (swap_seps s) r dd dir = mk s r dd dir.
+Proof. exact mk_sep_agnostic. Qed.
+Print Assumptions C12_sep_agnostic.
+
+Theorem C12_sep_agnostic_append : forall p s, append p (swap_seps s) = append p s.
+Proof. exact append_sep_agnostic. Qed.
+Print Assumptions C12_sep_agnostic_append.
+
+(* containment, soundness: a non-absolute drive-less path that was accepted never steps above its root
+   (escapes = the walk over the raw components, split at both separators, goes above depth 0) *)
+Theorem C12_confined : forall s x dd dir p,
+  mk s (RRoot x) dd dir = Some p -> p_root p <> Absolute -> p_drive p = [] ->
+  escapes 0 (split_seps s) = false.
+Proof. exact mk_confined_root. Qed.
+Print Assumptions C12_confined.
+
+(* containment, completeness: every relative string whose walk steps above the root is rejected *)
+Theorem C12_rejects_escape : forall s x dd dir,
+  fst (splitdrive (unbs s)) = [] -> initial_slashes (unbs s) = 0 ->
+  escapes 0 (split_seps s) = true -> mk s (RRoot x) dd dir = None.
+Proof. exact mk_rejects_escape. Qed.
+Print Assumptions C12_rejects_escape.
 
 (* equal paths (as __eq__ sees them) have equal hashed values *)
 Theorem C12_eq_hash : forall p q, path_eqb p q = true -> path_hash p = path_hash q.
 Proof. exact eq_hash. Qed.
 Print Assumptions C12_eq_hash.
+
+(* non-vacuity *)
+Example ex_mk : option_map suffix_str (mk (STR "a\.\b/../c//") (RRoot Srcdir) None None) = Some (STR "a/c").
+Proof. vm_compute. reflexivity. Qed.
+Example ex_reject : mk (STR "a/../..\x") (RRoot Srcdir) None None = None
+                    /\ escapes 0 (split_seps (STR "a/../..\x")) = true.
+Proof. vm_compute. auto. Qed.
